@@ -436,12 +436,8 @@ func (c *lzClient) compound(db *sod.DB, written *sync.Map) string {
 	}
 	switch r.Intn(9) {
 	case 7:
-		// Repair of a healthy collection while others write: nothing to repair.
-		// Not in asynchronous mode: entries of pending writes have no file yet,
-		// and integrity operations are only specified "once no write is pending".
-		if c08cfg.Async != 0 {
-			break
-		}
+		// Repair of a healthy collection while others write: nothing to repair (pending
+		// asynchronous writes are no divergence)
 		if err := db.Repair(&Rec{}); err != nil {
 			return "Repair of a healthy collection failed while other calls were running: " + err.Error()
 		}
